@@ -2,7 +2,8 @@
 // AVX2-assembly path and on the portable Go path.
 //
 // Grid: path{asm,generic} x variant{New,NewX} x plaintext length set x AD length set x
-// dst mode{nil, prefix+spare, prefix+capacity one short, prefix+exact capacity} x value
+// dst mode{nil, prefix+spare, prefix+capacity one short, prefix+exact capacity, in place
+// (Seal into plaintext[:0], Open into ciphertext[:0]) with exact and spare capacity} x value
 // classes. Oracle: verif/ref/aeadref (RFC 8439 §2.8 on a plain ChaCha20 block function
 // and a math/big Poly1305).
 package main
@@ -28,10 +29,12 @@ const (
 	dstSpare
 	dstShort // capacity one byte short of what the result needs: must reallocate
 	dstExact
+	dstInPlace      // Seal: dst = plaintext[:0], buffer capacity exactly n+16; Open: dst = ciphertext[:0]
+	dstInPlaceSpare // the same with spare capacity behind the buffer
 	nDst
 )
 
-var dstName = [...]string{"nil", "prefix+spare", "prefix+cap-1", "prefix+exact"}
+var dstName = [...]string{"nil", "prefix+spare", "prefix+cap-1", "prefix+exact", "in-place", "in-place+spare"}
 
 // mkDst carves the dst argument for a call that appends need bytes out of arena (no
 // allocation): len(prefix) bytes of prefix followed by poisoned capacity.
@@ -102,7 +105,7 @@ type variant struct {
 func run(c *vf.Ctx) {
 	pls, als := ptLens(c.Thorough), adLens()
 	c.Rule(fmt.Sprintf("full grid path{asm(AVX2),generic} x {New,NewX} x %d plaintext lengths (every 0..%d, every k*64-1/k*64/k*64+1 to 8192, k*16-1/k*16/k*16+1 to 2048, 65535..65537, 70001) x "+
-		"%d AD lengths (every 0..33 incl. 13; 47..49, 63..65, 255..257, 600) x dst{nil,prefix+spare,prefix+capacity-1,prefix+exact; only the middle two above 1024 bytes (thorough: above 2048)} x value classes (key,nonce,plaintext,AD drawn diagonally from the alphabet); "+
+		"%d AD lengths (every 0..33 incl. 13; 47..49, 63..65, 255..257, 600) x dst{nil,prefix+spare,prefix+capacity-1,prefix+exact (only the middle two above 1024 bytes; thorough: above 2048), IN PLACE Seal(plaintext[:0]) / Open(ciphertext[:0]) with exact and with spare capacity, inputs copied per call, at every length} x value classes (key,nonce,plaintext,AD drawn diagonally from the alphabet); "+
 		"each point: Seal == dst||RFC-model ciphertext||tag, Open(that) == dst||plaintext, inputs unmodified; non-trivial = distinct (path,variant,ptLen,adLen) with ptLen>=1; "+
 		"oracle = verif/ref/aeadref (plain block function + math/big Poly1305, RFC KATs)", len(pls), map[bool]int{false: 1024, true: 8192}[c.Thorough], len(als)))
 	c.Assume("math/big arithmetic is correct; values outside the alphabet are not enumerated (Poly1305 carry corner cases inside the AEAD assembly cannot be steered through the ChaCha20-derived one-time key)")
@@ -183,6 +186,7 @@ func run(c *vf.Ctx) {
 			arena := make([]byte, len(prefix)+maxPt+16+9)
 			want := make([]byte, 0, maxPt+16)
 			sealed := make([]byte, 0, maxPt+16)
+			ipbuf := make([]byte, maxPt+16+9) // in-place modes: the input is copied here for every call
 			var evals int
 			for _, n := range pls {
 				// long inputs: the fixed classes 0..2 add nothing over ascending+seeded there
@@ -208,9 +212,26 @@ func run(c *vf.Ctx) {
 					det := func() map[string]any {
 						return map[string]any{"path": ph.name, "variant": va.name, "ptLen": n, "adLen": u.an, "dst": dstName[dm], "class": u.ci}
 					}
-					dst := mkDst(arena, dm, n+16)
+					inPlace := dm == dstInPlace || dm == dstInPlaceSpare
+					spare := 0
+					if dm == dstInPlaceSpare {
+						spare = 9
+					}
+					var dst []byte
+					plainArg := plain
+					if !inPlace {
+						dst = mkDst(arena, dm, n+16)
+					} else {
+						// documented in-place use: dst = plaintext[:0], storage has room for the tag
+						for i := range ipbuf[n : n+16+spare] {
+							ipbuf[n+i] = 0xEE
+						}
+						copy(ipbuf, plain)
+						plainArg = ipbuf[: n : n+16+spare]
+						dst = plainArg[:0]
+					}
 					var got []byte
-					if pn, v, _ := vf.Protect(func() { got = aead.Seal(dst, nonce, plain, ad) }); pn {
+					if pn, v, _ := vf.Protect(func() { got = aead.Seal(dst, nonce, plainArg, ad) }); pn {
 						c.Violation(fmt.Sprintf("%s/%s Seal panics on valid input", ph.name, va.name), map[string]any{"at": det(), "panic": fmt.Sprint(v)})
 						continue
 					}
@@ -234,10 +255,19 @@ func run(c *vf.Ctx) {
 					}
 					// Open of the model's sealed message (identical to Seal's when the checks above pass)
 					sealed = append(sealed[:0], want...)
-					odst := mkDst(arena, dm, n)
+					var odst []byte
+					sealedArg := sealed
+					if !inPlace {
+						odst = mkDst(arena, dm, n)
+					} else {
+						// documented in-place use: dst = ciphertext[:0]
+						copy(ipbuf, want)
+						sealedArg = ipbuf[: n+16 : n+16+spare]
+						odst = sealedArg[:0]
+					}
 					var out []byte
 					var oerr error
-					if pn, v, _ := vf.Protect(func() { out, oerr = aead.Open(odst, nonce, sealed, ad) }); pn {
+					if pn, v, _ := vf.Protect(func() { out, oerr = aead.Open(odst, nonce, sealedArg, ad) }); pn {
 						c.Violation(fmt.Sprintf("%s/%s Open panics on valid input", ph.name, va.name), map[string]any{"at": det(), "panic": fmt.Sprint(v)})
 						continue
 					}
@@ -250,7 +280,7 @@ func run(c *vf.Ctx) {
 					if len(out) != opl+n || !bytes.Equal(out[:opl], prefix[:opl]) || !bytes.Equal(out[opl:], keepP[:n]) {
 						c.Violation(fmt.Sprintf("%s/%s Open result != dst||plaintext", ph.name, va.name), det())
 					}
-					if !bytes.Equal(sealed, want) || !bytes.Equal(ad, keepA) || !bytes.Equal(nonce, keepN) {
+					if (!inPlace && !bytes.Equal(sealed, want)) || !bytes.Equal(ad, keepA) || !bytes.Equal(nonce, keepN) {
 						c.Violation(fmt.Sprintf("%s/%s Open modified its inputs", ph.name, va.name), det())
 						copy(ad, keepA)
 						copy(nonce, keepN)
